@@ -68,6 +68,8 @@ fn main() {
         }
         "xdh" => sig::run_xdh(&mut tr, &mut rng, num("n", 40)),
         "eddsa" => sig::run_eddsa(&mut tr, &mut rng, &get("curve", "ed25519"), num("honest", 12), num("adv", 24)),
+        "trunc" => sig::run_trunc(&mut tr, &mut rng, &get("what", "ed25519"), num("n", 10), num("part", 0), num("parts", 1)),
+        "jq" => sig::run_jq(&mut tr, &mut rng, &get("curve", "jq255e"), num("honest", 6), num("adv", 3)),
         "ecdsa" => sig::run_ecdsa(&mut tr, &mut rng, &get("curve", "p256"), num("honest", 12), num("adv", 12)),
         "total" => total::run(&mut tr, &mut rng, num("part", 0), num("parts", 1), num("step", 1)),
         "frost" => frost::run(&mut tr, &mut rng, &get("script", "")),
